@@ -7,6 +7,7 @@
      hyperband_promotion.py             _find_promotable_trial  (sign = 1 - 2 * (mode == "min"))
    No proofs here (proofs/ModeCoresProofs.v). *)
 From Verif Require Import model.Base model.Rung.
+From Verif Require model.Pareto.
 Open Scope Q_scope.
 
 (* ---- stable sorts (Python sorted is stable; reverse=True keeps the original order of equal keys) ---- *)
@@ -341,4 +342,31 @@ Fixpoint prun (md : mode) (max_t : Z) (sys : psys) (evs : list pevent) : psys * 
   match evs with
   | [] => (sys, [])
   | ev :: rest => let '(s, o) := pstep md max_t sys ev in let '(s', os) := prun md max_t s rest in (s', o :: os)
+  end.
+
+(* ---- MOASHA shell around the bracket of model/Pareto.v: on_trial_result and on_trial_complete both
+   hand the SIGN-NORMALISED metrics self._metric_dict(result) to bracket.on_result (moasha.py) --------
+   one bracket; [prio] is the MOPriority callable; a complete call ignores the decision *)
+Inductive mo_event :=
+| MoResult (t : Z) (cur_iter : Q) (vals : list Q)      (* on_trial_result *)
+| MoComplete (t : Z) (cur_iter : Q) (vals : list Q).   (* on_trial_complete *)
+
+Definition mo_step (prio : list Pareto.vec -> list Q) (rf max_t : Q) (modes : list mode)
+           (b : Pareto.bracket) (ev : mo_event) : Pareto.bracket * option Pareto.decision :=
+  match ev with
+  | MoResult t it vals =>
+      let r := Pareto.moasha_on_trial_result prio rf max_t b t it (moasha_metric_dict modes vals) in
+      (fst r, Some (snd r))
+  | MoComplete t it vals =>
+      (fst (Pareto.bracket_on_result prio rf b t it (moasha_metric_dict modes vals)), None)
+  end.
+
+Fixpoint mo_run (prio : list Pareto.vec -> list Q) (rf max_t : Q) (modes : list mode)
+         (b : Pareto.bracket) (evs : list mo_event) : Pareto.bracket * list (option Pareto.decision) :=
+  match evs with
+  | [] => (b, [])
+  | ev :: rest =>
+      let s := mo_step prio rf max_t modes b ev in
+      let r := mo_run prio rf max_t modes (fst s) rest in
+      (fst r, snd s :: snd r)
   end.
